@@ -72,11 +72,25 @@ def cases(tier):
     cs.append(C("u/exp/where-0d", "out = mg.exp(x, where=m0)", [("x", ())], setup="m0 = np.array(True)"))
     cs.append(C("b/add/where-0d+out", "out = mg.add(x, y, where=m0, out=o)", [("x", ()), ("y", ())], carrs=[["o", []]], setup="m0 = np.array(True)"))
     cs.append(C("b/multiply/where-0d-bcast", "out = mg.multiply(x, y, where=m)", [("x", ()), ("y", (2,))], setup="m = np.array([True, True])"))
+    # masked-out elements may lie OUTSIDE the function's domain (that is what where= is for): only the selected elements are constrained
+    for f, dom in (("log", "gt(x[[0, 2]], 0)"), ("sqrt", "gt(x[[0, 2]], 0)"), ("reciprocal", "ne(x[[0, 2]], 0)"), ("log2", "gt(x[[0, 2]], 0)"),
+                   ("log1p", "gt(x[[0, 2]], -1)"), ("arcsin", "gt(x[[0, 2]], -1); lt(x[[0, 2]], 1)"), ("tan", None), ("cbrt", "ne(x[[0, 2]], 0)")):
+        cs.append(C("u/%s/where-masked-outside-domain" % f, "out = mg.%s(x, where=m, out=o)" % f, [("x", (3,))], carrs=[["o", [3]]],
+                    setup="m = np.array([True, False, True])", assume=dom, check_defined=True))
+    cs.append(C("b/divide/where-masked-outside-domain", "out = mg.divide(x, y, where=m, out=o)", [("x", (3,)), ("y", (3,))], carrs=[["o", [3]]],
+                setup="m = np.array([True, False, True])", assume="ne(y[[0, 2]], 0)", check_defined=True))
     # power special cases
     for e in ("2", "3", "-1", "0.5", "1", "0", "-2", "1.5"):
         cs.append(C("b/power/x**%s" % e, "out = x ** %s" % e, [("x", (2,))]))
     cs.append(C("b/power/2**x", "out = 2.0 ** x", [("x", (2,))]))
     # tensor exponents: the equality tests of the `** 1` / `** 2` shortcuts are decision points, and the function is smooth there
+    # integer-valued exponents through the real Power op, base unrestricted (x = 0 is a decision point of its zero guards and the
+    # function is smooth there): reference forward written as a polynomial
+    cs.append(C("b/power/mg.power(x,1.0)", "out = mg.power(x, 1.0)", [("x", (2,))], smooth_at_ties=True, ref_body="out = x * 1"))
+    cs.append(C("b/power/mg.power(x,2.0)", "out = mg.power(x, 2.0)", [("x", (2,))], smooth_at_ties=True, ref_body="out = x * x"))
+    cs.append(C("b/power/mg.power(x,3.0)", "out = mg.power(x, 3.0)", [("x", (2,))], smooth_at_ties=True, ref_body="out = x * x * x"))
+    cs.append(C("b/power/x**array[1,2]", "out = x ** E", [("x", (2,))], setup="E = np.array([1.0, 2.0])", smooth_at_ties=True,
+                ref_body="out = np.array([x[0], x[1] * x[1]], dtype=object)"))
     cs.append(C("b/power/x**p0d", "out = x ** p", [("x", (2,)), ("p", ())], assume="gt(x, 0)", smooth_at_ties=True, ref_body=REF_POW))
     cs.append(C("b/power/x**p1d", "out = x ** p", [("x", (2,)), ("p", (2,))], assume="gt(x, 0)", smooth_at_ties=True, ref_body=REF_POW))
     cs.append(C("b/power/x0d**p0d", "out = x ** p", [("x", ()), ("p", ())], assume="gt(x, 0)", smooth_at_ties=True, ref_body=REF_POW))
